@@ -173,6 +173,15 @@ func (r *runner) corpus() {
 		seq(newParented(0), fork(1), declare(2, 11), load(2, tn("type", "MyAlias")), declare(1, 14), load(2, tn("type", "MyAlias")), getEntry(2, tn("type", "MyAlias")), declare(2, 14), declare(1, 11)),
 		// load-entry / get-entry distinguish an absent entry from a cached miss; both are misses
 		cat(chain, loadEntry(3, a), getEntry(3, a), load(3, a), getEntry(3, a), loadEntry(3, a), getEntry(1, a), getEntry(2, a)),
+		// the guard of C12_full_stable_resolution_name / C12_full_discover_complete is needed (C12_full_guard_needed on the real
+		// loaders): Foo::Nope resolves through the type-set loader of Foo as the relative name Nope; an ancestor then gains a
+		// binding of `nope` - not of `foo::nope` - and the value changes; Foo::Nope resolves and Discover does not list it
+		seq(newDep(), newParented(1), newTypeSet(2, 0), def(2, tn("type", "Nope"), 0), load(3, tn("type", "Foo::Nope")), has(3, tn("type", "foo::nope")), discover(3, allPred()),
+			def(1, tn("type", "Nope"), 1), load(3, tn("type", "Foo::Nope")), load(3, tn("type", "Nope")), discover(3, allPred()), discover(3, nameLower("foo::nope"))),
+		// stable resolution by name across the other definition routes: Foo::Bus is found through l3, then px.AddTypes, declarations
+		// and definitions of OTHER names through l3 and its ancestors, a fork and px.AddTypes through the fork; found again
+		cat(chain, addTypes(2, 0), load(3, tn("type", "Foo::Bus")), load(3, tn("type", "Zed")), declare(2, 11), declare(1, 18), def(1, tn("type", "Other"), 8), addTypes(1, 5), addTypes(3, 2),
+			fork(3), addTypes(4, 0), load(3, tn("type", "Foo::Bus")), load(4, tn("type", "foo::bus")), load(3, tn("type", "MyAlias")), discover(3, nsPred("type")), discover(4, nsPred("type"))),
 	}
 	for _, h := range hs {
 		r.check(h, cf, true, "corpus")
